@@ -229,7 +229,7 @@ func ruleRecState(c *Ctx) {
 			// a success return: no error result, or a nil one
 			rr := retResults(ret)
 			if len(rr) > 0 {
-				if _, isErr := rr[len(rr)-1].Type().Underlying().(*types.Interface); isErr && types.TypeString(rr[len(rr)-1].Type(), nil) == "error" && !isNilConst(rr[len(rr)-1]) {
+				if _, isErr := rr[len(rr)-1].Type().Underlying().(*types.Interface); isErr && types.TypeString(rr[len(rr)-1].Type(), nil) == "error" && !mayBeNilError(rr[len(rr)-1], b) {
 					continue
 				}
 			}
@@ -961,4 +961,54 @@ func nodeText(n ast.Node) string {
 		return true
 	})
 	return sb.String()
+}
+
+// mayBeNilError: can the error value returned in block b be nil (a successful return)? Not when it is a freshly made
+// error, and not when the block is reached only through the true edge of a test `v != nil` of that very value;
+// a result handed on from a call (return p.f(...)) may well be nil.
+func mayBeNilError(v ssa.Value, b *ssa.BasicBlock) bool {
+	if isNilConst(v) {
+		return true
+	}
+	if errNonNil(v, 0) == 1 {
+		return false
+	}
+	fn := b.Parent()
+	for _, g := range fn.Blocks {
+		if len(g.Instrs) == 0 || !(g == b || g.Dominates(b)) {
+			continue
+		}
+		ifi, ok := g.Instrs[len(g.Instrs)-1].(*ssa.If)
+		if !ok || g == b {
+			continue
+		}
+		bo, ok := ifi.Cond.(*ssa.BinOp)
+		if !ok || !isNilConst(bo.Y) || bo.X != v {
+			continue
+		}
+		switch bo.Op {
+		case token.NEQ:
+			if !reachableAvoiding(g.Succs[1], g)[b] {
+				return false
+			}
+		case token.EQL:
+			if !reachableAvoiding(g.Succs[0], g)[b] {
+				return false
+			}
+		}
+	}
+	if ph, ok := v.(*ssa.Phi); ok {
+		for _, e := range ph.Edges {
+			if isNilConst(e) {
+				return true
+			}
+		}
+		for _, e := range ph.Edges {
+			if errNonNil(e, 0) != 1 {
+				return true
+			}
+		}
+		return false
+	}
+	return true
 }
